@@ -24,7 +24,9 @@ MANIFEST = {
             'all operations incl. division, reciprocal, pow, sin/cos are checked against an exact rational oracle; '
             'compositions (mpc.prod over every whole/fractional pattern of length 2..6, sum, in_prod, schur_prod, scalar_mul, '
             'matrix_prod on mixed lists, x**n for n<=6, chains (a*b)*c, a*(b*c), (a*b)/c; m=1 and m=3) are checked against '
-            'the bounds composed along the operation tree.',
+            'the bounds composed along the operation tree; a reduced budget runs on m=7,t=3 and m=6,t=2 (PRSS on), and the secure '
+            'fixed-point ARRAY operations (np_multiply, float array factor, matmul, outer, comparisons, np_trunc) run under the NumPy '
+            'interpreter in a subprocess at m=3 and m=1.',
     'note': 'Trusted: Coq kernel+vm_compute; scaled-integer model (field wrap-around excluded by in-range hypotheses; Shamir '
             'sharing/resharing abstracted: the simulator runs the real protocols); Python float round(b*2^f) is an input of the '
             'model. NOT proved in Coq: pow_bound, division/reciprocal (_rec/_norm Newton iteration), sin/cos: implementation-level '
@@ -496,6 +498,116 @@ def composition_stream(ctx, Sim, stats_all):
     ctx.log('%d composition cases (prod patterns n=2..6, list ops, pow, chains)' % (ctx.evaluations - n0))
 
 
+def wide_config_stream(ctx, Sim, stats_all):
+    """Reduced budget on the larger PRSS configurations m=7,t=3 (35 PRSS subsets) and m=6,t=2: a few products,
+    public-float factors, x**3, truncations per type, and in_prod/schur_prod/matrix_prod on one type."""
+    rng = ctx.rng
+    n0 = ctx.evaluations
+    for cfg in [(7, 3, False), (6, 2, False)]:
+        m, t, noprss = cfg
+        for (l, f) in [(32, 16), (16, 8), (64, 32)]:
+            pool = gen_cases(rng, l, f, 120)
+            want = {'mul': 3, 'mul_float': 1, 'pow': 1, 'trunc': 2, 'mul_int': 1, 'lt': 1}
+            cases = []
+            for c in pool:
+                if want.get(c[0], 0) > 0 and (c[0] != 'pow' or c[2] >= 3):
+                    want[c[0]] -= 1
+                    cases.append(c)
+            results, comp = [], []
+            sim = Sim(m=m, t=t, no_prss=noprss, seed=ctx.seed * 23 + m)
+            try:
+                sim.start()
+                res = H.run_limited(sim, make_prog(l, f, cases, results), 300, idle_limit=8000)
+                res2 = H.run_limited(sim, make_comp_prog(l, f, 2, 2, True, comp), 300, idle_limit=8000) if (l, f) == (32, 16) else []
+            finally:
+                H.quiet_close(sim)
+            if res is None or res2 is None or any(not isinstance(r, list) for r in list(res) + list(res2)):
+                ctx.broken.append({'kind': 'run', 'what': 'wide-configuration program did not complete', 'cfg': list(cfg),
+                                   'type': [l, f], 'res': str(res)[:200]})
+                continue
+            if any(r != res[0] for r in res[1:]):
+                ctx.violation('parties-disagree', {'cfg': list(cfg), 'type': [l, f], 'stream': 'wide'})
+            stats = {}
+            for case, r in zip(cases, results):
+                check_case(ctx, cfg, l, f, case, r, stats)
+                ctx.case({'cfg': list(cfg), 't': [l, f], 'case': [case[0], case[1], str(case[2])]}, nontrivial=True,
+                         kind='m=%d %s' % (m, case[0]))
+            for rec in comp:
+                check_comp(ctx, cfg, l, f, rec, stats)
+                ctx.case({'comp': rec[0], 'cfg': list(cfg), 't': [l, f], 'ins': rec[1]}, nontrivial=True, kind='m=%d comp %s' % (m, rec[0]))
+            for k, v in stats.items():
+                kk = 'm=%d %s (%d,%d)' % (m, k, l, f)
+                stats_all[kk] = max(stats_all.get(kk, 0.0), round(v, 3))
+    ctx.log('%d cases on m=7,t=3 and m=6,t=2 (PRSS on)' % (ctx.evaluations - n0))
+
+
+def numpy_stream(ctx, stats_all):
+    """Secure fixed-point ARRAY operations (np_multiply, matmul, outer, comparisons, np_trunc) under the NumPy
+    interpreter (subprocess), m=3 and m=1, same unit bounds as the scalar operations."""
+    rng = ctx.rng
+    items = []
+    for (m, t, noprss) in [(3, 1, False), (1, 0, False), (3, 1, True)]:
+        for (l, f) in ([(32, 16), (16, 8)] if not noprss else [(32, 16)]):
+            U = 2 ** f
+            lim = 2 ** ((l - f) // 2 - 2) * U
+            A = [rng.randint(-lim, lim) for _ in range(6)]
+            B = [rng.randint(-lim, lim) for _ in range(6)]
+            A[0], B[1] = 3, U + 1
+            C = [1.3125 + 2.0 ** -f, -0.4375, 2.5, 0.75 - 2.0 ** -f, 0.1, 1 / 3]
+            items.append({'cfg': [m, t, noprss, l, f], 'A': A, 'B': B, 'C': C})
+    res, prob = H.run_np_job({'kind': 'c02', 'seed': ctx.seed, 'items': items})
+    if res is None:
+        ctx.broken.append({'kind': 'run', 'what': 'NumPy array stream did not run', 'detail': prob})
+        return
+    n0 = ctx.evaluations
+    for item, spec in zip(res, items):
+        m, t, noprss, l, f = item['cfg']
+        U = 2 ** f
+        A, B, C = [Fr(x) for x in spec['A']], [Fr(x) for x in spec['B']], [Fr(c) for c in spec['C']]
+        parties = item['parties']
+        if any(not isinstance(x, list) for x in parties):
+            ctx.broken.append({'kind': 'run', 'what': 'NumPy array program did not complete', 'cfg': item['cfg'], 'res': str(parties)[:300]})
+            continue
+        if any(x != parties[0] for x in parties[1:]):
+            ctx.violation('parties-disagree', {'cfg': item['cfg'], 'stream': 'numpy'})
+        Ai = [U * (x // U) for x in A]
+        k = f // 2
+        exp = {
+            'add': ([a + b for a, b in zip(A, B)], [0] * 6), 'sub': ([a - b for a, b in zip(A, B)], [0] * 6),
+            'mul': ([a * b / U for a, b in zip(A, B)], [1] * 6), 'mul_int_arr': ([a * b / U for a, b in zip(Ai, B)], [1] * 6),
+            'mul_float': ([a * c for a, c in zip(A, C)], [2 * (1 + abs(a) / U) for a in A]),
+            'matmul': ([sum(A[3 * i + h] * B[2 * h + j] for h in range(3)) / U for i in range(2) for j in range(2)], [1] * 4),
+            'outer': ([a * b / U for a in A[:3] for b in B[:3]], [1] * 9),
+            'lt': ([Fr(U * int(a < b)) for a, b in zip(A, B)], [0] * 6), 'eq': ([Fr(U)] * 6, [0] * 6),
+        }
+        for rec in parties[0]:
+            op, vals = rec[0], rec[1]
+            ctx.case({'np': op, 'cfg': item['cfg'], 'A': spec['A'], 'B': spec['B']}, nontrivial=op not in ('add', 'sub'), kind='m=%d np %s' % (m, op))
+            base = {'cfg': item['cfg'], 'type': [l, f], 'op': 'np ' + op, 'A_scaled': spec['A'], 'B_scaled': spec['B'],
+                    'C': spec['C'], 'got_scaled': vals}
+            if op == 'EXC':
+                ctx.violation('exception op=numpy-array', base)
+                continue
+            if op == 'trunc':
+                bad = [i for i, (a, v) in enumerate(zip(spec['A'], vals)) if v not in (a // 2 ** k, -((-a) // 2 ** k))]
+                if bad:
+                    base['wrong_positions'] = bad
+                    ctx.violation('trunc-not-floor-or-ceil np_trunc', base)
+                continue
+            exact, bound = exp[op]
+            worst = 0.0
+            for i, (v, e, b) in enumerate(zip(vals, exact, bound)):
+                err = abs(Fr(v) - e)
+                worst = max(worst, float(err / b) if b else float(err))
+                if err > b or len(vals) != len(exact):
+                    base.update({'position': i, 'exact_scaled': str(e), 'bound_units': str(b), 'error_units': float(err)})
+                    ctx.violation(('mul-bound op=np_%s' % op) if b else ('not-exact op=np_%s' % op), base)
+                    break
+            kk = 'np %s (%d,%d)' % (op, l, f)
+            stats_all[kk] = max(stats_all.get(kk, 0.0), round(worst, 3))
+    ctx.log('%d NumPy array cases' % (ctx.evaluations - n0))
+
+
 def run(ctx):
     from lib.sim import Sim
     ok = ctx.build(['MPyC.Fxp']) and ctx.check_props()
@@ -565,6 +677,8 @@ def run(ctx):
         ctx.log('config %s done: %d cases so far' % (cfg, ncase))
     alias_stream(ctx, Sim)
     composition_stream(ctx, Sim, stats_all)
+    wide_config_stream(ctx, Sim, stats_all)
+    numpy_stream(ctx, stats_all)
     ctx.extra['worst_error_over_bound'] = {k: stats_all[k] for k in sorted(stats_all)}
     if ok and exprs:
         res = ctx.coq_eval(['MPyC.Fxp'], exprs, chunk=150)
